@@ -25,6 +25,7 @@ type c16case struct {
 	tls       string // none | provider | clientcert
 	versioned bool
 	mux       string // "\x00" unset
+	versions  string // PLUGIN_PROTOCOL_VERSIONS; "" = the default "1,2", "\x00" = unset
 }
 
 func (c c16case) String() string {
@@ -34,7 +35,11 @@ func (c c16case) String() string {
 		}
 		return strconv.Quote(s)
 	}
-	return fmt.Sprintf("cookie=%s configured{key=%q,value=%q} %s tls=%s versioned=%v PLUGIN_MULTIPLEX_GRPC=%s", q(c.cookie), c.cfgKey, c.cfgVal, c.proto, c.tls, c.versioned, q(c.mux))
+	s := fmt.Sprintf("cookie=%s configured{key=%q,value=%q} %s tls=%s versioned=%v PLUGIN_MULTIPLEX_GRPC=%s", q(c.cookie), c.cfgKey, c.cfgVal, c.proto, c.tls, c.versioned, q(c.mux))
+	if c.versions != "" {
+		s += " PLUGIN_PROTOCOL_VERSIONS=" + q(strings.TrimPrefix(c.versions, "="))
+	}
+	return s
 }
 
 // TestC16 — a real vplugin process per case: cookie gate, exit status, raw
@@ -50,9 +55,20 @@ func TestC16(t *testing.T) {
 				for _, tl := range []string{"none", "provider", "clientcert"} {
 					for _, vd := range []bool{false, true} {
 						for _, mx := range []string{"\x00", "", "true", "false", "1", "junk"} {
-							cases = append(cases, c16case{ck, kv[0], kv[1], proto, tl, vd, mx})
+							cases = append(cases, c16case{ck, kv[0], kv[1], proto, tl, vd, mx, ""})
 						}
 					}
+				}
+			}
+		}
+	}
+	// version lists a host may send (right cookie): unset, empty, partly or wholly unparsable, no common version.
+	// Whatever the list, the first stdout line is the handshake line and nothing else is written there.
+	for _, vl := range []string{"\x00", "=", "=1", "=2", "=2,x", "=1, 2", "=1,2,", "=x", "=9", "=,", "=0"} {
+		for _, proto := range []string{"netrpc", "grpc"} {
+			for _, vd := range []bool{false, true} {
+				for _, mx := range []string{"\x00", "true"} {
+					cases = append(cases, c16case{cookieVal, cookieKey, cookieVal, proto, "none", vd, mx, vl})
 				}
 			}
 		}
@@ -80,7 +96,13 @@ func TestC16(t *testing.T) {
 			}
 			pj, _ := json.Marshal(pc)
 			cmd := exec.Command(vp)
-			cmd.Env = []string{"VP_CONF=" + string(pj), "TMPDIR=" + dir, "PLUGIN_UNIX_SOCKET_DIR=" + dir, "PLUGIN_PROTOCOL_VERSIONS=1,2"}
+			cmd.Env = []string{"VP_CONF=" + string(pj), "TMPDIR=" + dir, "PLUGIN_UNIX_SOCKET_DIR=" + dir}
+			switch {
+			case c.versions == "":
+				cmd.Env = append(cmd.Env, "PLUGIN_PROTOCOL_VERSIONS=1,2")
+			case c.versions != "\x00":
+				cmd.Env = append(cmd.Env, "PLUGIN_PROTOCOL_VERSIONS="+c.versions[1:])
+			}
 			if c.cookie != "\x00" && c.cfgKey != "" {
 				cmd.Env = append(cmd.Env, c.cfgKey+"="+c.cookie)
 			}
@@ -160,10 +182,31 @@ func TestC16(t *testing.T) {
 							if f[0] != "1" {
 								bad("core protocol field %q", f[0])
 							}
-							if f[1] != "1" && f[1] != "2" {
-								bad("version field %q is not a served version", f[1])
-							} else if c.versioned && f[1] != "2" {
-								bad("announced version %s, highest common is 2", f[1])
+							// reference: highest version both offered (parsable entries only) and served, else the lowest served
+							served := []int{1}
+							if c.versioned {
+								served = []int{2, 1}
+							}
+							offered := map[int]bool{1: true, 2: true}
+							if c.versions != "" {
+								offered = map[int]bool{}
+								if c.versions != "\x00" {
+									for _, tok := range strings.Split(c.versions[1:], ",") {
+										if n, err := strconv.Atoi(tok); err == nil {
+											offered[n] = true
+										}
+									}
+								}
+							}
+							want := served[len(served)-1]
+							for _, v := range served {
+								if offered[v] {
+									want = v
+									break
+								}
+							}
+							if f[1] != strconv.Itoa(want) {
+								bad("announced version %s, expected %d (highest common, else the lowest served)", f[1], want)
 							}
 							if f[2] != "unix" || !strings.HasPrefix(f[3], dir+"/") {
 								bad("address %s|%s is not a unix socket in the socket dir", f[2], f[3])
